@@ -159,9 +159,9 @@ def random_nl_case(rng):
         r = rng.random()
         if r < 0.45:    # inner op
             k = rng.randint(0, 3)
-            o = S.random_op(rng, 2)
+            o = S.random_op(rng, 2, selfarg=True)
             while o.split()[0] in ("rm", "so", "sk") or any(m in o for m in ("g[", "t[", "i[")):
-                o = S.random_op(rng, 2)
+                o = S.random_op(rng, 2, selfarg=True)
             ops.append("i %d %s" % (k, o))
         elif r < 0.92:  # outer op with list items
             m = rng.choice(["ap", "ex", "ia", "in", "si", "ss", "di", "ds", "po", "cl", "rv", "im"])
